@@ -123,6 +123,10 @@ impl<'a> TypstTranslator<'a> {
     }
 
     pub fn parse_expr(self, expr: Expr, offset: OffsetCursor) -> Option<Vec<Token>> {
+        // A node that `typst_syntax` synthesised for an incomplete construct (`#let` at the end of
+        // the text) has a detached span: it covers no source text, so there is nothing to lint.
+        self.doc.range(expr.span())?;
+
         // Update the offset that will be passed to other functions by moving it to the beginning
         // of the current expression's span.
         let offset = offset.push_to_span(expr.span());
